@@ -57,22 +57,22 @@ theorem runUntil_prefix : ∀ (l : List (Nat × Act)), (runUntil l).1 <+: l.map 
 theorem filterMap_before_map (l : List Nat) : List.filterMap (beforeIdx ∘ HCall.before) l = l := by
   induction l with
   | nil => rfl
-  | cons x xs ih => simp [List.filterMap_cons, beforeIdx, ih]
+  | cons x xs ih => simp [beforeIdx, ih]
 
 theorem filterMap_before_after (l : List Nat) : List.filterMap (beforeIdx ∘ HCall.after) l = [] := by
   induction l with
   | nil => rfl
-  | cons x xs ih => simp [List.filterMap_cons, beforeIdx, ih]
+  | cons x xs ih => simp [beforeIdx, ih]
 
 theorem filterMap_after_map (l : List Nat) : List.filterMap (afterIdx ∘ HCall.after) l = l := by
   induction l with
   | nil => rfl
-  | cons x xs ih => simp [List.filterMap_cons, afterIdx, ih]
+  | cons x xs ih => simp [afterIdx, ih]
 
 theorem filterMap_after_before (l : List Nat) : List.filterMap (afterIdx ∘ HCall.before) l = [] := by
   induction l with
   | nil => rfl
-  | cons x xs ih => simp [List.filterMap_cons, afterIdx, ih]
+  | cons x xs ih => simp [afterIdx, ih]
 
 theorem fm_before (bt at_ : List Nat) (mid : List HCall) (hm : mid.filterMap beforeIdx = []) :
     (bt.map HCall.before ++ mid ++ at_.map HCall.after).filterMap beforeIdx = bt := by
@@ -165,22 +165,22 @@ def stopIdx : LCall → Option Nat
 theorem filterMap_start_map (l : List Nat) : List.filterMap (startIdx ∘ LCall.startup) l = l := by
   induction l with
   | nil => rfl
-  | cons x xs ih => simp [List.filterMap_cons, startIdx, ih]
+  | cons x xs ih => simp [startIdx, ih]
 
 theorem filterMap_start_stop (l : List Nat) : List.filterMap (startIdx ∘ LCall.shutdown) l = [] := by
   induction l with
   | nil => rfl
-  | cons x xs ih => simp [List.filterMap_cons, startIdx, ih]
+  | cons x xs ih => simp [startIdx, ih]
 
 theorem filterMap_stop_map (l : List Nat) : List.filterMap (stopIdx ∘ LCall.shutdown) l = l := by
   induction l with
   | nil => rfl
-  | cons x xs ih => simp [List.filterMap_cons, stopIdx, ih]
+  | cons x xs ih => simp [stopIdx, ih]
 
 theorem filterMap_stop_start (l : List Nat) : List.filterMap (stopIdx ∘ LCall.startup) l = [] := by
   induction l with
   | nil => rfl
-  | cons x xs ih => simp [List.filterMap_cons, stopIdx, ih]
+  | cons x xs ih => simp [stopIdx, ih]
 
 theorem specLifespan_shape (cs : List (Nat × LComp)) :
     ∃ (sh : List Nat), sh <+: ((shutdowns cs).map (·.1)).reverse ∧
